@@ -34,6 +34,7 @@ type c18Case struct {
 	CancelAtClose bool        `json:"cancel_at_close,omitempty"` // contexts of the calls in flight are cancelled right after the closer was invoked
 	TrigPoint     string      `json:"trig_point"`                // a yield point, "dial" (k-th dial begins), or "end"
 	TrigOcc       int         `json:"trig_occ"`
+	HoldLong      bool        `json:"hold_long,omitempty"` // the goroutine at the trigger point is parked until the closer has returned (at most 30 ms) instead of 1 ms
 	Rules         []*HookRule `json:"rules,omitempty"`
 }
 
@@ -204,7 +205,11 @@ func runC18(c c18Case, countOnly bool) (*Violation, map[string]int, string) {
 			}
 			cl.Dial.mu.Unlock()
 		default:
-			rules = append(rules, &HookRule{Point: c.TrigPoint, Occ: c.TrigOcc, Side: "client", HoldU: 1000, Trigger: run.fireClose})
+			r := &HookRule{Point: c.TrigPoint, Occ: c.TrigOcc, Side: "client", HoldU: 1000, Trigger: run.fireClose}
+			if c.HoldLong {
+				r.HoldU, r.HoldUntil = 30000, run.closed
+			}
+			rules = append(rules, r)
 		}
 	}
 	hooks.Reset(rules...)
@@ -339,6 +344,8 @@ func runC18Plain(transport string) *Violation {
 	return nil
 }
 
+var c18LongHoldPoints = map[string]bool{"frame.read": true, "resp.found": true, "resp.delivered": true, "chan.sink": true, "chan.close": true}
+
 var c18Points = []string{"req.accepted", "inflight.registered", "write.locked", "resp.found", "resp.delivered", "chan.sink", "chan.close", "frame.read", "cancel.send", "reconnect.begin", "closechans.begin", "dial"}
 
 func c18NT(c c18Case) (bool, []string) {
@@ -349,16 +356,19 @@ func c18NT(c c18Case) (bool, []string) {
 	if len(c.Rules) > 0 {
 		cl = append(cl, "with_delays")
 	}
+	if c.HoldLong {
+		cl = append(cl, "hold_until_closed")
+	}
 	return c.TrigPoint != "end", cl
 }
 
-const c18Rule = "mixed workload A (paced stream, gated calls awaiting responses, 40 kB multi-frame response, burst of queued calls and a notification, second subscription) and B (A plus a connection reset with refused redials, calls issued between connections incl. retry-tagged, heal); a counting pass records how often each client-side yield point (and each dial) occurs, then the closer is fired at occurrence k of point p with the library goroutine held for 1 ms: every (p,k) in thorough, a stratified sample in quick, plus rapid-drawn (p,k) with delays at exit.exiting-closed / stop.begin / closechans.begin; http and custom clients are closed with calls in progress. Non-trivial = close fired from inside a yield point (not at the quiescent end); distinct by descriptor hash"
+const c18Rule = "mixed workload A (paced stream, gated calls awaiting responses, 40 kB multi-frame response, burst of queued calls and a notification, second subscription) and B (A plus a connection reset with refused redials, calls issued between connections incl. retry-tagged, heal); a counting pass records how often each client-side yield point (and each dial) occurs, then the closer is fired at occurrence k of point p with the library goroutine held for 1 ms (and, on the frame-consuming paths, a variant held until the closer has returned, at most 30 ms): every (p,k) in thorough, a stratified sample in quick, plus rapid-drawn (p,k) with delays at exit.exiting-closed / stop.begin / closechans.begin; http and custom clients are closed with calls in progress. Non-trivial = close fired from inside a yield point (not at the quiescent end); distinct by descriptor hash"
 
 func TestC18(t *testing.T) {
 	rec := NewRec("C18", c18Rule)
 	defer rec.Finish(t)
 	rec.EnableJournal()
-	rec.RequireClass("workload_C", "cancel_at_close", "workload_A", "workload_B", "workload_http", "workload_custom", "at_dial", "at_reconnect.begin", "at_frame.read", "at_write.locked", "at_resp.found", "at_chan.sink", "with_delays")
+	rec.RequireClass("hold_until_closed", "workload_C", "cancel_at_close", "workload_A", "workload_B", "workload_http", "workload_custom", "at_dial", "at_reconnect.begin", "at_frame.read", "at_write.locked", "at_resp.found", "at_chan.sink", "with_delays")
 	run := func(ft failer, c c18Case) {
 		nt, cl := c18NT(c)
 		rec.Run(ft, c, nt, cl, func() *Violation {
@@ -422,6 +432,10 @@ func TestC18(t *testing.T) {
 						continue
 					}
 					run(t, c18Case{Workload: w, TrigPoint: pt, TrigOcc: occ})
+					// on the paths that consume frames, also let the whole close sequence land inside the window
+					if c18LongHoldPoints[pt] && (thorough() || occ <= 3) {
+						run(t, c18Case{Workload: w, TrigPoint: pt, TrigOcc: occ, HoldLong: true})
+					}
 				}
 			}
 			rec.SetExtra("yield_occurrences_workload_"+w, total)
